@@ -125,7 +125,7 @@ def main():
     hooks_commits = ["bd185528"]
     m = {
         "version": 1,
-        "setup_cmd": "make -s -j16 -C /verif rel",
+        "setup_cmd": "make -s -j16 -C /verif everything",
         "hooks": {
             "guard": "COLVARS_VERIF",
             "sub_guards": "VERIF_DEPS_HOOK (friend declaration in src/colvardeps.h)",
